@@ -227,6 +227,128 @@ Definition lit_parse (text : bytes) : Outcome json :=
   | _ => Err 7
   end.
 
+(* ---- a plain JSON parser for the property's restricted grammar ---- *)
+(* RFC 8259 text without string escapes: white space is space \t \n \r; strings
+   are the bytes between two double quotes (no backslash: Err 9, outside the
+   grammar; no control characters); numbers follow the JSON number syntax;
+   arrays and objects need their commas and colons.  Objects are built like
+   encoding/json builds a map: a repeated key keeps its last value. *)
+Fixpoint skip_ws (b : bytes) : bytes :=
+  match b with
+  | c :: r => if mem c [32; 9; 10; 13] then skip_ws r else b
+  | [] => []
+  end.
+
+Fixpoint j_string (acc : bytes) (r : bytes) : Outcome (bytes * bytes) :=
+  match r with
+  | [] => Err 2
+  | c :: r' =>
+    if c =? 34 then Ok (rev acc, r')
+    else if c =? 92 then Err 9
+    else if c <? 32 then Err 2
+    else j_string (c :: acc) r'
+  end.
+
+(* JSON number: optional minus; 0 or a digit run not starting with 0; optional
+   point with digits; optional e/E with optional sign and digits *)
+Definition json_num_syntax (tok : bytes) : bool :=
+  let b := match tok with 45 :: r => r | _ => tok end in
+  let '(n1, r1) := digits b in
+  let int_ok := match b with
+                | 48 :: _ => Nat.eqb n1 1
+                | _ => negb (Nat.eqb n1 0)
+                end in
+  let '(frac_ok, r2) := match r1 with
+                        | 46 :: r => let '(n2, r') := digits r in (negb (Nat.eqb n2 0), r')
+                        | _ => (true, r1)
+                        end in
+  let exp_ok := match r2 with
+                | [] => true
+                | e :: r3 =>
+                  if (e =? 101) || (e =? 69) then
+                    let r4 := match r3 with 43 :: r | 45 :: r => r | _ => r3 end in
+                    let '(n3, r5) := digits r4 in
+                    negb (Nat.eqb n3 0) && match r5 with [] => true | _ => false end
+                  else false
+                end in
+  int_ok && frac_ok && exp_ok.
+
+Definition j_delim (c : N) : bool := mem c [32; 9; 10; 13; 44; 93; 125; 91; 123; 34; 58].
+
+Fixpoint j_token (r : bytes) : bytes * bytes :=
+  match r with
+  | [] => ([], [])
+  | c :: r' => if j_delim c then ([], r) else let '(t, rest) := j_token r' in (c :: t, rest)
+  end.
+
+Definition j_scalar (tok : bytes) : Outcome json :=
+  if bytes_eqb tok [110; 117; 108; 108] then Ok JNull
+  else if bytes_eqb tok [116; 114; 117; 101] then Ok (JBool true)
+  else if bytes_eqb tok [102; 97; 108; 115; 101] then Ok (JBool false)
+  else if json_num_syntax tok then Ok (JNum tok)
+  else Err 1.
+
+Fixpoint j_value (f : nat) (inp : bytes) {struct f} : Outcome (json * bytes) :=
+  match f with
+  | O => OutOfFuel
+  | S f' =>
+    match skip_ws inp with
+    | [] => Err 1
+    | c :: r =>
+      if c =? 34 then obind (j_string [] r) (fun '(s, r') => Ok (JStr s, r'))
+      else if c =? 91 then
+        match skip_ws r with
+        | 93 :: r' => Ok (JArr [], r')
+        | _ => j_items f' [] r
+        end
+      else if c =? 123 then
+        match skip_ws r with
+        | 125 :: r' => Ok (JObj [], r')
+        | _ => j_members f' [] r
+        end
+      else let '(t, r') := j_token (c :: r) in
+           match t with
+           | [] => Err 1
+           | _ => obind (j_scalar t) (fun v => Ok (v, r'))
+           end
+    end
+  end
+with j_items (f : nat) (acc : list json) (inp : bytes) {struct f} : Outcome (json * bytes) :=
+  match f with
+  | O => OutOfFuel
+  | S f' =>
+    obind (j_value f' inp) (fun '(v, r) =>
+      match skip_ws r with
+      | 44 :: r' => j_items f' (v :: acc) r'
+      | 93 :: r' => Ok (JArr (rev (v :: acc)), r')
+      | _ => Err 1
+      end)
+  end
+with j_members (f : nat) (o : list (bytes * json)) (inp : bytes) {struct f} : Outcome (json * bytes) :=
+  match f with
+  | O => OutOfFuel
+  | S f' =>
+    match skip_ws inp with
+    | 34 :: r =>
+      obind (j_string [] r) (fun '(k, r1) =>
+        match skip_ws r1 with
+        | 58 :: r2 =>
+          obind (j_value f' r2) (fun '(v, r3) =>
+            match skip_ws r3 with
+            | 44 :: r4 => j_members f' (obj_set k v o) r4
+            | 125 :: r4 => Ok (JObj (obj_set k v o), r4)
+            | _ => Err 1
+            end)
+        | _ => Err 1
+        end)
+    | _ => Err 1
+    end
+  end.
+
+Definition json_parse (text : bytes) : Outcome json :=
+  obind (j_value (2 * length text + 2) text)
+        (fun '(v, rest) => match skip_ws rest with [] => Ok v | _ => Err 1 end).
+
 (* ---- values as observed from Go: numbers as float64 bits ---- *)
 Inductive jval :=
 | VNull | VBool (b : bool) | VNum (bits : N) | VStr (s : bytes)
